@@ -50,6 +50,13 @@ def simplify(t):
         t = tuple(simplify(x) for x in t)
         if t and t[0] == "downcast" and len(t) >= 3 and t[2] in ("Ok", "Some", "Continue"):
             t = (t[0], _prune_phi_for_payload(t[1])) + tuple(t[2:])
+        if t and t[0] == "field" and (t[3] if len(t) > 3 else t[2]) == 0 and _unref(t[1])[0] == "downcast" and _unref(t[1])[2] in ("Ok", "Some", "Continue"):
+            # the success payload of a value that was just built as Some(x) / Ok(x) is x
+            inner = _unref(_unref(t[1])[1])
+            if inner[0] == "call" and lib.norm(inner[1]) == "std::ops::Try::branch" and inner[2]:
+                inner = _unref(inner[2][0])
+            if inner[0] == "agg" and (inner[2] or "").split("::")[-1] in ("Some", "Ok") and len(inner[3]) == 1:
+                return inner[3][0]
         if t and t[0] == "field" and len(t) >= 3:
             base = _unref(t[1])
             idx = t[3] if len(t) > 3 else t[2]
@@ -299,7 +306,7 @@ def _inline_all(W, bv, t, keep=lambda name: False, _stack=(), _depth=0):
     """Replace, anywhere in a value term, calls to local synchronous non-trait functions by the callee's return-value
     term with the arguments substituted (recursively), except callees for which keep(short name) is true (the named
     primitives a rule talks about).  A private helper extracted from an expression then renders like the expression."""
-    if _depth > 30:
+    if _depth > 400:
         return t
     if isinstance(t, list):
         return [_inline_all(W, bv, x, keep, _stack, _depth + 1) for x in t]
@@ -311,7 +318,8 @@ def _inline_all(W, bv, t, keep=lambda name: False, _stack=(), _depth=0):
         short = lib.norm(t[1]).split("::")[-1]
         # only private functions are inlined: a public function is part of the vocabulary the rules are written in
         if cv is not None and not cv.body.get("pub") and not keep(short) and cv.id not in _stack and len(cv.blocks) < 400:
-            body = _inline_all(W, cv, cv.trace_local(0), keep, _stack + (cv.id,), _depth + 1)
+            from . import terms as _terms
+            body = _inline_all(W, cv, _terms.annotate_names(cv, cv.trace_local(0)), keep, _stack + (cv.id,), _depth + 1)
             return simplify(lib.subst_params(body, args))
         return (t[0], t[1], args) + tuple(t[3:])
     return tuple(_inline_all(W, bv, x, keep, _stack, _depth + 1) if isinstance(x, (tuple, list)) else x for x in t)
